@@ -822,7 +822,7 @@ func c10Tags(in c10Input, obs c10Obs) []string {
 func runC10(o Opts) {
 	n := 1500
 	if o.Tier == "thorough" {
-		n = 6000
+		n = 30000
 	}
 	if o.N > 0 {
 		n = o.N
